@@ -34,12 +34,54 @@ def effect_events(prog, body, eff_nodes, entries_ids):
     return out
 
 
+RAW_INDEX_TY_RX = re.compile(
+    r"\banda_db::index::(btree::BTree|bm25::BM25|hnsw::Hnsw)\b|\banda_db_btree::btree::BTreeIndex\b"
+    r"|\banda_db_tfs::bm25::BM25Index\b|\banda_db_hnsw::hnsw::HnswIndex\b")
+
+
+def _view_rules(rep, prog):
+    """R06.6 (replaces the round-0 compile-fail witnesses): collection-owned indexes are reachable from outside only
+    through the query-only view types.  The raw wrappers have `&self` mutators (interior mutability), so handing one out
+    would let a caller write past the gate, the lifecycle check and the recovery journal."""
+    rep.rule("R06.6", "no public anda_db function outside index/ mentions a raw index type in its signature; "
+                      "every method of the *IndexView types is effect-free over the call graph", floor=100)
+    views = sorted(a for a in prog.adts if re.search(r"^anda_db::collection::\w+IndexView$", a))
+    if len(views) < 3:
+        raise CheckerFault("index view types not found (have %r)" % views)
+    eff = prog.reaching(anda.is_effect)
+    nview = 0
+    for f in prog.fns.values():
+        if f.crate != "anda_db" or f.kind == "Closure":
+            continue
+        if f.impl_adt in views:
+            nview += 1
+            body = prog.fn(f.path)
+            rep.saw(body, len(body.events))
+            ok = f.id not in eff and body.id not in eff
+            path = None if ok else prog.find_path(body, anda.is_effect)
+            rep.ob("R06.6", "view-effect-free|%s" % f.path, ok,
+                   "a view method reaches a backend write or index mutation: %s" % (" -> ".join(path) if path else ""),
+                   f.file + ":%d" % f.line)
+        if f.vis != "pub" or "/index/" in f.file:
+            continue
+        body = prog.fn(f.path)
+        tys = [body.locals[0]] + list(f.locals[1:1 + f.argc])
+        bad = [t for t in tys if RAW_INDEX_TY_RX.search(t)]
+        rep.ob("R06.6", "signature|%s" % f.path, not bad,
+               "public signature exposes a raw index wrapper (its &self mutators bypass the collection): %s" % bad[:1],
+               f.file + ":%d" % f.line)
+    if nview < 15:
+        rep.fault("R06.6: only %d view methods found" % nview)
+
+
 def run(rep, tier):
     prog = anda.load()
     C = anda.Coll(prog)
     rep.not_decided = "drop glue actually running the guard; state after reopen; value-level read-only semantics"
     rep.assumptions = ["rustc MIR construction and callee resolution", "Rust drop semantics (a guard is released at its Drop)",
                        "tokio RwLock is a lock", "unwind paths ignored (panic=abort in release)"]
+
+    _view_rules(rep, prog)
 
     # ------------------------------------------------------------------ entries
     all_eff = prog.reaching(anda.is_effect)
